@@ -720,7 +720,20 @@ func (t *FnTrans) contractCall(x *ssa.Call, callee *ssa.Function, con *Contract,
 			}
 		}
 		if len(con.Modifies) == 0 {
-			t.replaceState(st, t.havocAll(st))
+			// no frame: every real location may change; ghost instrumentation
+			// changes only where the callee (or a contracted callee of it) sets it
+			ns := t.havocAllKeepGhost(st)
+			for _, g := range t.W.ghostWrites(callee, map[*ssa.Function]bool{}) {
+				comp := "G." + g
+				if srt, ok := t.compSorts[comp]; ok {
+					ns.cur[comp] = t.declare(t.fresh("H."+comp+"!call"), srt)
+				}
+				comp = "GA." + g
+				if srt, ok := t.compSorts[comp]; ok {
+					ns.cur[comp] = t.declare(t.fresh("H."+comp+"!call"), srt)
+				}
+			}
+			t.replaceState(st, ns)
 			t.note("call to %s: contract has no frame (pure/modifies): whole heap havocked", name)
 		} else {
 			for _, m := range con.Modifies {
@@ -762,6 +775,58 @@ func (t *FnTrans) contractCall(x *ssa.Call, callee *ssa.Function, con *Contract,
 	for _, c := range con.Ensures {
 		t.assumps = append(t.assumps, Assump{Guard: reach, F: Formula{Clause: c, Env: post}, Why: "ensures of " + name})
 	}
+}
+
+// ghostWrites: names of the ghost components a contracted function may set:
+// its own ghostinit / site ghostsets / modifies ghost items and, transitively,
+// those of the contracted functions it calls statically.
+func (w *World) ghostWrites(fn *ssa.Function, seen map[*ssa.Function]bool) []string {
+	if fn == nil || seen[fn] {
+		return nil
+	}
+	seen[fn] = true
+	set := map[string]bool{}
+	if con := w.contractFor(fn); con != nil {
+		for _, c := range con.GhostInit {
+			for _, m := range ghostNameRe.FindAllStringSubmatch(c.Text, -1) {
+				set[m[1]] = true
+			}
+		}
+		for _, s := range con.Sites {
+			for _, g := range s.Ghosts {
+				for _, m := range ghostNameRe.FindAllStringSubmatch(g.Target, -1) {
+					set[m[1]] = true
+				}
+			}
+		}
+		for _, it := range con.Modifies {
+			if strings.HasPrefix(strings.TrimSpace(it), "ghost") {
+				for _, m := range ghostNameRe.FindAllStringSubmatch(it, -1) {
+					set[m[1]] = true
+				}
+				if strings.HasPrefix(strings.TrimSpace(it), "ghostseq(") {
+					set[strings.Trim(strings.TrimSuffix(strings.TrimPrefix(strings.TrimSpace(it), "ghostseq("), ")"), "\" ")] = true
+				}
+			}
+		}
+	}
+	for _, b := range fn.Blocks {
+		for _, in := range b.Instrs {
+			if c, ok := in.(ssa.CallInstruction); ok {
+				if cal := c.Common().StaticCallee(); cal != nil && w.contractFor(cal) != nil {
+					for _, g := range w.ghostWrites(cal, seen) {
+						set[g] = true
+					}
+				}
+			}
+		}
+	}
+	var r []string
+	for g := range set {
+		r = append(r, g)
+	}
+	sortStrings(r)
+	return r
 }
 
 // havocModifies havocs the part of the heap named by one `modifies` item.
@@ -828,7 +893,20 @@ func (t *FnTrans) havocModifies(item string, pre *Env, st *HeapState, reach stri
 			el := s.T.Underlying().(*types.Slice).Elem()
 			es := t.mode.scalarSort(el)
 			if es == "" {
-				panic(&exprError{"contents() of composite elements"})
+				// composite elements (e.g. [][]byte): every element of this
+				// base may change, component by component
+				cds := t.flatComps(el)
+				if cds == nil {
+					panic(&exprError{"contents() of unsupported composite elements"})
+				}
+				for _, cd := range cds {
+					comp := "B." + t.sortKey(el) + cd.suffix
+					inner := arraySort(t.mode.idxSort(), cd.sort)
+					srt := arraySort("Int", inner)
+					arr := t.heapGet(st, comp, srt)
+					t.heapSet(st, comp, srt, sx("store", arr, s.Sub[0].S, t.declare(t.fresh("modarr"), inner)))
+				}
+				return
 			}
 			comp := "B." + t.sortKey(el)
 			inner := arraySort(t.mode.idxSort(), es)
